@@ -336,7 +336,7 @@ class Sim:
         self.net.connect_policy = policy
         return dev
 
-    def client(self, address: str | None = None, port: int = 6053, password: str | None = None, *, outside_loop: bool = False,
+    def client(self, address: str | None = None, port: int = 6053, password: str | None = None, *, outside_loop: Any = False,
                debug: bool | None = None, **kw: Any) -> Any:
         from aioesphomeapi import APIClient
 
@@ -369,6 +369,11 @@ class Sim:
             finally:
                 asyncio.set_event_loop(self.loop)
                 asyncio._set_running_loop(running)  # noqa: SLF001
+            if outside_loop == "closed-loop":
+                # ... or it was built inside an earlier asyncio.run() of the process (`client = asyncio.run(make_client())`, a set-up phase with its
+                # own loop): the loop current at construction has finished and is closed by the time the sessions run
+                self.idle_loops.remove(other)
+                other.close()
         else:
             cli = APIClient(address, port, password, **kw)
         cli.set_debug(bool(debug_))
